@@ -189,6 +189,14 @@ def step' (σ : DSt) (ws : List String) : DSt × String :=
       | .error .exc => (σ, "exc")
       | .error .unmodelled => (σ, "unmodelled")
     | _, _ => (σ, "bad-op")
+  | ["finfopkt", v2, hex] =>
+    match (if v2 == "1" then some true else if v2 == "0" then some false else none), ofHex? hex with
+    | some v2, some payload =>
+      match fetcherInfoPkt ⟨σ.fs, σ.cache, σ.f⟩ v2 payload with
+      | .ok (w, outs) => ({ fs := w.fs, cache := w.cache, f := w.f }, "ok " ++ showOuts outs)
+      | .error .exc => (σ, "exc")
+      | .error .unmodelled => (σ, "unmodelled")
+    | _, _ => (σ, "bad-op")
   | ["felem", ident, e] =>
     match ident.toNat?, parseElem? e with
     | some ident, some e =>
